@@ -166,6 +166,9 @@ class ValueGen:
         if k == "y":
             return ["y", V.b64(f"byt{n}".encode() + bytes(self.rnd.choice([[], [255], [128, 1], [127]])))]
         if k == "v":
+            if self.rnd.random() < 0.12:
+                # a single opaque byte other than the deletion marker value 0x7f
+                return ["v", V.b64(bytes([self.rnd.choice([0, 1, 0x7e, 0x80, 0xff, 0x20])]))]
             body = self.rnd.choice([b"\x00", b"\x00\x00", b"\x7f\x7f", b"\xff\x00", b"\x7f", b""])
             return ["v", V.b64(f"v{n}".encode() + body + b"\x00")]
         if k == "a":
